@@ -41,6 +41,9 @@ pub struct Index {
     pub n_templates: usize,
     pub root: PathBuf,
     pub shadowed_structs: Vec<StructDef>,
+    /// (owner struct, real field name) -> canonical name used in symbolic paths; and the reverse
+    pub canon: std::cell::RefCell<std::collections::HashMap<(String, String), String>>,
+    pub uncanon: std::cell::RefCell<std::collections::HashMap<(String, String), String>>,
 }
 
 pub fn ty_str(t: &syn::Type) -> String {
@@ -62,6 +65,7 @@ impl Index {
         ix.root = root.to_path_buf();
         let lib = root.join("lib.rs");
         ix.load_file(&lib, root)?;
+        ix.init_static_canon();
         Ok(ix)
     }
 
@@ -188,7 +192,36 @@ impl Index {
         }
     }
 
+    pub fn set_canon(&self, owner: &str, real: &str, canonical: &str) {
+        if real == canonical { return; }
+        self.canon.borrow_mut().insert((owner.to_string(), real.to_string()), canonical.to_string());
+        self.uncanon.borrow_mut().insert((owner.to_string(), canonical.to_string()), real.to_string());
+    }
+    pub fn canon_name(&self, owner: &str, real: &str) -> String {
+        self.canon.borrow().get(&(owner.to_string(), real.to_string())).cloned().unwrap_or_else(|| real.to_string())
+    }
+    /// static part: fields identified by their declared type (unique within the owner)
+    pub fn init_static_canon(&self) {
+        const T: &[(&str, &str, &str)] = &[
+            ("FieldEntry", "HelperAttributes", "hattrs"), ("FieldEntry", "&'aField", "field"), ("FieldEntry", "usize", "index"),
+            ("VariantEntry", "&'aVariant", "variant"), ("VariantEntry", "Vec<FieldEntry<'a>>", "fields"), ("VariantEntry", "HelperAttributes", "hattrs"),
+            ("HelperAttributes", "HashMap<DeriveItemKind,DeriveEntry>", "items"), ("HelperAttributes", "Option<HelperAttributeForDefault>", "default"), ("HelperAttributes", "HelperAttributeForDebug", "debug"), ("HelperAttributes", "HelperAttributesForCompareOp", "cmp"),
+            ("HelperAttributeForDebug", "Bounds", "bounds"), ("HelperAttributeForDefault", "Bounds", "bounds"), ("HelperAttributeForDefault", "Option<Expr>", "value"),
+            ("HelperAttributeForCompareOp", "Bounds", "bounds"), ("HelperAttributeForCompareOp", "Option<Expr>", "by"), ("HelperAttributeForCompareOp", "Option<Template>", "key"),
+            ("DeriveEntry", "DeriveItemKind", "kind"), ("DeriveEntry", "Span", "span"), ("DeriveEntry", "bool", "dump"),
+            ("Bounds", "Vec<Type>", "ty"), ("Bounds", "Vec<WherePredicate>", "pred"), ("Bounds", "bool", "default"),
+            ("WhereClauseBuilder", "Vec<Type>", "types"), ("WhereClauseBuilder", "Vec<WherePredicate>", "preds"), ("WhereClauseBuilder", "GenericParamSet", "gps"),
+        ];
+        for (owner, ty, canonical) in T {
+            if let Some(sd) = self.structs.get(*owner) {
+                let m: Vec<&(String, syn::Type)> = sd.fields.iter().filter(|(_, t)| ty_str(t) == *ty).collect();
+                if m.len() == 1 { self.set_canon(owner, &m[0].0, canonical); }
+            }
+        }
+    }
     pub fn field_ty(&self, struct_name: &str, field: &str) -> Option<syn::Type> {
+        let real = self.uncanon.borrow().get(&(struct_name.to_string(), field.to_string())).cloned();
+        let field = real.as_deref().unwrap_or(field);
         if let Some(s) = self.structs.get(struct_name) {
             if let Some((_, t)) = s.fields.iter().find(|(n, _)| n == field) { return Some(t.clone()); }
         }
